@@ -197,6 +197,8 @@ def compare(impl_payload, model_payload, line=""):
         b.append(("parse", "printing and parsing gives %s, expected the original tree %s" % (I.get("parse"), M["s.parse"])))
     if any(I.get(k) == "panic" for k in ("tok", "parse", "pt")):
         b.append(("panic", "the parser panicked"))
+    if I.get("det") == "0":
+        b.append(("det", "the same call made twice in one process gave two different results"))
     if "s.val" in M and I.get("val") != M["s.val"]:
         b.append(("val", "evaluates to %s, specified %s" % (I.get("val"), M["s.val"])))
     if "s.checked" in M and "checked" in I:
